@@ -27,7 +27,8 @@ ASSUMPTIONS = ["blackjax flattens the kernel's position with ravel_pytree (trust
 WORKERS = 16
 TIMEOUT = {"quick": 1200, "thorough": 3600}
 
-SHAPES = {"alpha": (), "zeta": (2,), "beta": (3,), "mat": (2, 2), "gamma": ()}
+# mixed-case names: the pytree (hence flat) order of dict keys is the plain string order, "Zeta" < "alpha"
+SHAPES = {"alpha": (), "zeta": (2,), "beta": (3,), "mat": (2, 2), "gamma": (), "Zeta": (), "Sigma": (2,)}
 
 
 def coord_map(kernel, state):
